@@ -4,9 +4,11 @@ import (
 	"fmt"
 	"go/ast"
 	"go/types"
+	"hash/fnv"
 	"sort"
 	"strings"
 	"text/template/parse"
+	"unicode/utf8"
 
 	"golang.org/x/tools/go/ssa"
 
@@ -483,9 +485,17 @@ func ordinalOf(fn *ssa.Function, call *ssa.Call, kind string) int {
 	return k
 }
 
+// clip shortens a rendered expression for the tables; what is cut off stays part of the row as a
+// checksum, so a change beyond the cut is still a change of the row.
 func clip(s string, n int) string {
 	if len(s) > n {
-		return s[:n] + "…"
+		h := fnv.New32a()
+		h.Write([]byte(s))
+		cut := n
+		for cut > 0 && !utf8.RuneStart(s[cut]) {
+			cut--
+		}
+		return fmt.Sprintf("%s…#%06x", s[:cut], h.Sum32()&0xffffff)
 	}
 	return s
 }
@@ -500,14 +510,14 @@ var predicateTable = map[string]string{}
 
 func init() {
 	for k, v := range map[string]string{
-		"handlersCore/ResourceConfigMap":             "NewPredicateFuncs",
-		"handlersCore/ResourceService":               "Or(AnnotationChangedPredicate,GenerationChangedPredicate,NewPredicateFuncs)",
-		"handlersCore/ResourceEndpoints#1":           "NewPredicateFuncs,Funcs{UpdateFunc}",
-		"handlersCore/ResourceEndpoints#2":           "NewPredicateFuncs,Funcs{UpdateFunc}",
-		"handlersCore/ResourceSecret":                "",
-		"handlersCore/ResourcePod":                   "Funcs{CreateFunc,UpdateFunc}",
-		"handlersIngress/ResourceIngress":            "Or(AnnotationChangedPredicate,GenerationChangedPredicate),Funcs{CreateFunc,DeleteFunc,UpdateFunc}",
-		"handlersIngress/ResourceIngressClass":       "GenerationChangedPredicate,Funcs{CreateFunc,DeleteFunc,UpdateFunc}",
+		"handlersCore/ResourceConfigMap":       "NewPredicateFuncs",
+		"handlersCore/ResourceService":         "Or(AnnotationChangedPredicate,GenerationChangedPredicate,NewPredicateFuncs)",
+		"handlersCore/ResourceEndpoints#1":     "NewPredicateFuncs,Funcs{UpdateFunc}",
+		"handlersCore/ResourceEndpoints#2":     "NewPredicateFuncs,Funcs{UpdateFunc}",
+		"handlersCore/ResourceSecret":          "",
+		"handlersCore/ResourcePod":             "Funcs{CreateFunc,UpdateFunc}",
+		"handlersIngress/ResourceIngress":      "Or(AnnotationChangedPredicate,GenerationChangedPredicate),Funcs{CreateFunc,DeleteFunc,UpdateFunc}",
+		"handlersIngress/ResourceIngressClass": "GenerationChangedPredicate,Funcs{CreateFunc,DeleteFunc,UpdateFunc}",
 	} {
 		predicateTable[k] = v
 	}
